@@ -99,7 +99,7 @@ func RunC17(r *core.Run) {
 	r.Rule = "case = one grammar-generated parameter list (0..6 items name[=value], values token / quoted with escapes / empty / missing, SP/HT/folds around names '=' and separators, empty items, separator ';' or '&', terminator in {end of header, ',' / '?', whitespace-then-token, end of input} as the flag set allows) for each of the 15 documented flag sets (+ random flag sets); ParseTokenParam driven value by value, ParseAllURIParams / ParseAllURIHdrs for capacities 0..n+1; expected by construction: one parameter per item in order, Name/Val exactly the written text (quoted values complete), All containing both, final verdict and offset per terminator, wrappers' N / per-parameter type (independent table, case-insensitive) / Types; character stage: every byte value 0..255 at name-start, name-middle, value-start and value-middle in 6 modes must be accepted iff it is in the documented set (letters digits -_.!~*'()% []/:+$, '&' in URI-parameter mode, '?' otherwise) and otherwise be rejected with ErrHdrBadChar AT that byte; GetViaBrSig: branch found iff present, prefix rule; non-trivial = list accepted and compared; distinct by hash"
 	r.Assume = []string{"whitespace-then-token: any offset inside the separating whitespace run is accepted; an empty value directly before SP+token is ambiguous (a= b is a=b) and not generated; a zero-item list before a ','/'?' terminator has no stated verdict and is not generated",
 		"for an empty value only Val.Len == 0 is demanded (its offset is unspecified)"}
-	n := r.Pick(1500000, 25000000)
+	n := r.Pick(1500000, 150000000)
 	r.Stage("token-param-lists", n, func(w *core.Worker, idx int64) {
 		rr := core.NewRand(r.Seed, 0xC17, 1, uint64(idx))
 		flags := TokFlagSets[idx%int64(len(TokFlagSets))]
@@ -153,7 +153,7 @@ func RunC17(r *core.Run) {
 			w.Sample("token-param-lists/"+termName(pl.Term), map[string]any{"input": core.Esc(buf), "flags": uint(flags)})
 		}
 	})
-	r.Stage("uri-param-and-header-wrappers", r.Pick(1000000, 20000000), func(w *core.Worker, idx int64) {
+	r.Stage("uri-param-and-header-wrappers", r.Pick(1000000, 120000000), func(w *core.Worker, idx int64) {
 		rr := core.NewRand(r.Seed, 0xC17, 2, uint64(idx))
 		hdrs := idx%2 == 1
 		base := []sipsp.POptFlags{sipsp.POptInputEndF, sipsp.POptTokURIParamF | sipsp.POptInputEndF, sipsp.POptTokQmTermF, sipsp.POptTokSpTermF, 0,
@@ -269,7 +269,7 @@ func RunC17(r *core.Run) {
 		}
 	})
 	// wrappers filled by several calls: k lists in one buffer (each ended by ','), one call per list
-	r.Stage("wrappers-filled-by-several-calls", r.Pick(100000, 3000000), func(w *core.Worker, idx int64) {
+	r.Stage("wrappers-filled-by-several-calls", r.Pick(100000, 18000000), func(w *core.Worker, idx int64) {
 		rr := core.NewRand(r.Seed, 0xC17, 5, uint64(idx))
 		hdrs := rr.Bool()
 		flags := sipsp.POptTokCommaTermF
@@ -428,7 +428,7 @@ func RunC17(r *core.Run) {
 	st.Exhaustive = true
 	st.Space = "every byte value 0..255 x {name start, name middle, value start, value middle} x 6 flag sets (structural bytes of the mode excluded)"
 	// Via branch signature
-	r.Stage("via-branch", r.Pick(500000, 8000000), func(w *core.Worker, idx int64) {
+	r.Stage("via-branch", r.Pick(500000, 48000000), func(w *core.Worker, idx int64) {
 		rr := core.NewRand(r.Seed, 0xC17, 4, uint64(idx))
 		var via []byte
 		via = append(via, []string{"SIP/2.0/UDP host", "SIP/2.0/TCP 10.0.0.1:5060", "SIP/2.0/TLS [2001:db8::1]:5061", "x"}[rr.Intn(4)]...)
